@@ -15,10 +15,11 @@ def strip_controls(s):
 
 
 class TM:
-    def __init__(self, chars=None, base=None, tab=8):
+    def __init__(self, chars=None, base=None, tab=8, overflow=None):
         self.chars = list(chars or [])   # [(ch, layers|None)]
         self.base = base                 # record or None
         self.tab = tab                   # the text's own tab size (what expand_tabs() without an argument uses)
+        self.overflow = overflow         # the text's own overflow method (what truncate() / align() without one use)
 
     @classmethod
     def from_str(cls, s, base=None, layer=None, strip=True):
@@ -28,7 +29,7 @@ class TM:
         return cls([(c, layers) for c in s], base)
 
     def copy(self):
-        return TM(list(self.chars), self.base, self.tab)
+        return TM(list(self.chars), self.base, self.tab, self.overflow)
 
     @property
     def plain(self):
@@ -145,7 +146,7 @@ class TM:
         del self.chars[n:]
 
     def pieces(self, bounds):
-        return [TM(self.chars[a:b] if a <= b else [], self.base, self.tab) for a, b in bounds]
+        return [TM(self.chars[a:b] if a <= b else [], self.base, self.tab, self.overflow) for a, b in bounds]
 
 
 def split_bounds(s, sep, include_separator, allow_blank):
